@@ -8,7 +8,9 @@ import (
 	"strconv"
 	"strings"
 	"sync"
+	"sync/atomic"
 	"syscall"
+	"time"
 
 	remoteexecution "github.com/bazelbuild/remote-apis/build/bazel/remote/execution/v2"
 	"github.com/buildbarn/bb-remote-execution/pkg/builder"
@@ -45,11 +47,39 @@ type faultFetcher struct {
 	failing  map[string]bool
 	injected *int
 	calls    *int
+	// gate: the next GetDirectory of gateKey is suspended (a slow storage): it
+	// announces itself on entered and continues when resume is closed
+	gateKey string
+	entered chan struct{}
+	resume  chan struct{}
+}
+
+// signallingNormalizer is the case sensitive normalizer; when armed it reports
+// the next name it normalizes (directory operations normalize names while holding
+// the directory lock, which gives a synchronisation point without sleeping).
+type signallingNormalizer struct {
+	armed  atomic.Bool
+	called chan string
+}
+
+func (n *signallingNormalizer) Normalize(c path.Component) virtual.NormalizedComponent {
+	if n.armed.CompareAndSwap(true, false) {
+		n.called <- c.String()
+	}
+	return virtual.CaseSensitiveComponentNormalizer.Normalize(c)
 }
 
 func (f *faultFetcher) GetDirectory(ctx context.Context, d digest.Digest) (*remoteexecution.Directory, error) {
 	f.mu.Lock()
 	*f.calls++
+	if f.gateKey != "" && f.gateKey == casKey(d) {
+		f.gateKey = ""
+		entered, resume := f.entered, f.resume
+		f.mu.Unlock()
+		entered <- struct{}{}
+		<-resume
+		f.mu.Lock()
+	}
 	if f.failing[casKey(d)] {
 		*f.injected++
 		f.mu.Unlock()
@@ -88,6 +118,7 @@ type rig struct {
 	root     virtual.PrepopulatedDirectory
 	bd       builder.BuildDirectory
 	mask     virtual.AttributesMask
+	norm     *signallingNormalizer
 	monitor  *access.BloomFilterComputingUnreadDirectoryMonitor
 }
 
@@ -125,6 +156,7 @@ func (r *rig) newRoot() {
 	} else {
 		r.ha = virtual.NewFUSEHandleAllocator(g)
 	}
+	r.norm = &signallingNormalizer{called: make(chan string, 1)}
 	r.setter = func(requested virtual.AttributesMask, attributes *virtual.Attributes) {}
 	r.symlinks = virtual.NewHandleAllocatingSymlinkFactory(
 		virtual.NewBaseSymlinkFactory(r.setter), r.ha.New(), path.LocalFormat)
@@ -135,7 +167,7 @@ func (r *rig) newRoot() {
 			r.ha),
 		virtual.NewErrorSymlinkFactory(status.Error(codes.PermissionDenied, "Symlink outside build directory")),
 		r.logger, r.ha, sort.Sort, func(string) bool { return false }, clock.SystemClock,
-		virtual.CaseSensitiveComponentNormalizer, r.setter, virtual.NoNamedAttributesFactory)
+		r.norm, r.setter, virtual.NoNamedAttributesFactory)
 	r.bd = builder.NewVirtualBuildDirectory(r.root, r.fetcher, r.cas, r.symlinks, characterDevices, r.ha, r.setter, clock.SystemClock)
 	r.bd.InstallHooks(memPool{}, r.logger)
 }
@@ -604,4 +636,169 @@ func (r *rig) concurrentWalk(paths [][]string, threads int, seed uint64) (answer
 		}
 	}
 	return answers, disagreement
+}
+
+// race3Result is what the three-party scenario observed.
+type race3Result struct {
+	t1, rn1, rn2, t2 string // outputs of: readdir p/D, rename D->T, rename E->D, lookup p/D
+	t2Listing        string // listing of the directory object T2's lookup returned
+	parked           bool   // T2 really had to drop the parent lock and wait
+	stale            bool   // T2 got a directory object that is not the one under the name
+	stuck            string // the scenario could not be driven (not a finding)
+}
+
+const race3Timeout = 20 * time.Second
+
+// race3 drives the interleaving: T1 keeps the lazily loaded directory D of
+// directory p locked (its GetDirectory is suspended), T2 looks D up from p with
+// attributes that need D's lock (drops p's lock inside LockPile.Lock and waits),
+// the caller renames D away and E in, then storage resumes.
+func (r *rig) race3(p []string, nameD, nameE, nameT string, digestKeyD string) (res race3Result) {
+	pdir, st := r.walkTo(p)
+	if st != "" {
+		res.stuck = "cannot walk to the parent: " + st
+		return
+	}
+	compD := path.MustNewComponent(nameD)
+	var a virtual.Attributes
+	child, s := pdir.VirtualLookup(r.ctx, compD, virtual.AttributesMaskFileType, &a)
+	oldD, _ := child.GetPair()
+	if s != virtual.StatusOK || oldD == nil {
+		res.stuck = "D is not a directory"
+		return
+	}
+	f := r.fetcher
+	f.mu.Lock()
+	f.gateKey, f.entered, f.resume = digestKeyD, make(chan struct{}, 1), make(chan struct{})
+	entered, resume := f.entered, f.resume
+	f.mu.Unlock()
+	released := false
+	release := func() {
+		if !released {
+			released = true
+			close(resume)
+		}
+	}
+	defer func() {
+		release()
+		f.mu.Lock()
+		f.gateKey = ""
+		f.mu.Unlock()
+	}()
+
+	// T1: first exploration of D
+	t1Done := make(chan string, 1)
+	go func() {
+		defer func() {
+			if x := recover(); x != nil {
+				t1Done <- fmt.Sprintf("panic: %v", x)
+			}
+		}()
+		t1Done <- r.exec("readdir", toks(append(append([]string(nil), p...), nameD)))
+	}()
+	select {
+	case <-entered:
+		res.parked = true
+	case out := <-t1Done: // D had been loaded before: nothing to park on
+		res.t1 = out
+	case <-time.After(race3Timeout):
+		res.stuck = "T1 neither finished nor reached the storage"
+		return
+	}
+
+	type lookupResult struct {
+		child virtual.DirectoryChild
+		s     virtual.Status
+		panic string
+	}
+	t2Done := make(chan lookupResult, 1)
+	startT2 := func() {
+		go func() {
+			var lr lookupResult
+			defer func() {
+				if x := recover(); x != nil {
+					lr.panic = fmt.Sprintf("panic: %v", x)
+				}
+				t2Done <- lr
+			}()
+			var out virtual.Attributes
+			lr.child, lr.s = pdir.VirtualLookup(r.ctx, compD, r.mask|virtual.AttributesMaskChangeID|virtual.AttributesMaskLastDataModificationTime, &out)
+		}()
+	}
+	if res.parked {
+		// T2 enters p (signalled while it holds p's lock); a probe that needs p's
+		// lock returns only after T2 dropped it, i.e. T2 waits for D's lock
+		r.norm.armed.Store(true)
+		startT2()
+		select {
+		case <-r.norm.called:
+		case <-time.After(race3Timeout):
+			res.stuck = "T2 did not enter the parent directory"
+			return
+		}
+		probe := make(chan struct{})
+		go func() {
+			var out virtual.Attributes
+			pdir.VirtualGetAttributes(r.ctx, virtual.AttributesMaskChangeID, &out)
+			close(probe)
+		}()
+		select {
+		case <-probe:
+		case <-time.After(race3Timeout):
+			res.stuck = "T2 did not release the parent directory"
+			return
+		}
+	}
+	// T3: mv D T && mv E D
+	two := func(a, b string) []string {
+		return append([]string{strconv.Itoa(len(p) + 1)}, append(toks(append(append([]string(nil), p...), a)), toks(append(append([]string(nil), p...), b))...)...)
+	}
+	res.rn1 = r.exec("rename", two(nameD, nameT))
+	res.rn2 = r.exec("rename", two(nameE, nameD))
+	release()
+	if res.parked {
+		select {
+		case res.t1 = <-t1Done:
+		case <-time.After(race3Timeout):
+			res.stuck = "T1 did not finish"
+			return
+		}
+	} else {
+		startT2()
+	}
+	var lr lookupResult
+	select {
+	case lr = <-t2Done:
+	case <-time.After(race3Timeout):
+		res.stuck = "T2 did not finish"
+		return
+	}
+	if lr.panic != "" {
+		res.t2 = lr.panic
+		return
+	}
+	if lr.s != virtual.StatusOK {
+		res.t2 = statusName(lr.s)
+		return
+	}
+	t2Dir, _ := lr.child.GetPair()
+	if t2Dir == nil {
+		res.t2 = "leaf"
+		return
+	}
+	res.t2 = "dir"
+	// what is under the name now?
+	var fa virtual.Attributes
+	fresh, fs := pdir.VirtualLookup(r.ctx, compD, virtual.AttributesMaskFileType, &fa)
+	freshDir, _ := fresh.GetPair()
+	if fs != virtual.StatusOK || freshDir != t2Dir {
+		res.stale = true
+	}
+	rp := &reporter{r: r}
+	if s := t2Dir.VirtualReadDir(r.ctx, 0, r.mask, rp); s != virtual.StatusOK {
+		res.t2Listing = statusName(s)
+	} else {
+		res.t2Listing = "[" + strings.Join(rp.sorted(), ",") + "]"
+	}
+	return
 }
